@@ -189,12 +189,8 @@ def build_model():
 # Steps B and C helpers
 # --------------------------------------------------------------------------------------
 
-def run_lines(binary, prop, lines, timeout=1800, extra_args=(), env=None, mem_kb=None):
-    """Feed case lines to a line-oriented runner, get one observation line per case."""
-    data = ("\n".join(lines) + "\n").encode()
-    cmd = [binary, prop] + list(extra_args)
-    if mem_kb:
-        cmd = ["bash", "-c", "ulimit -v %d; exec \"$@\"" % mem_kb, "x"] + cmd
+def _run_chunk(args):
+    cmd, data, timeout, env = args
     try:
         p = subprocess.run(cmd, input=data, stdout=subprocess.PIPE, stderr=subprocess.PIPE, timeout=timeout, env=env)
     except subprocess.TimeoutExpired:
@@ -203,6 +199,34 @@ def run_lines(binary, prop, lines, timeout=1800, extra_args=(), env=None, mem_kb
     if p.returncode != 0:
         return out, "exit %d: %s" % (p.returncode, p.stderr.decode("utf-8", "replace")[-2000:])
     return out, None
+
+
+def run_lines(binary, prop, lines, timeout=1800, extra_args=(), env=None, mem_kb=None, shards=None):
+    """Feed case lines to a line-oriented runner, get one observation line per case.
+    Cases are independent, so the list is split over several processes."""
+    cmd = [binary, prop] + list(extra_args)
+    if mem_kb:
+        cmd = ["bash", "-c", "ulimit -v %d; exec \"$@\"" % mem_kb, "x"] + cmd
+    lines = list(lines)
+    if shards is None:
+        shards = max(1, min(14, len(lines) // 150))
+    if shards <= 1:
+        return _run_chunk((cmd, ("\n".join(lines) + "\n").encode(), timeout, env))
+    size = (len(lines) + shards - 1) // shards
+    chunks = [lines[i:i + size] for i in range(0, len(lines), size)]
+    from concurrent.futures import ThreadPoolExecutor
+    with ThreadPoolExecutor(max_workers=len(chunks)) as ex:
+        results = list(ex.map(_run_chunk, [(cmd, ("\n".join(c) + "\n").encode(), timeout, env) for c in chunks]))
+    out, err = [], None
+    for c, (o, e) in zip(chunks, results):
+        if e and not err:
+            err = e
+        if o is None:
+            return None, err
+        out.extend(o)
+        if len(o) != len(c) and not err:
+            err = "short output (%d of %d lines)" % (len(o), len(c))
+    return out, err
 
 
 def known_findings(prop_id):
